@@ -476,6 +476,42 @@ def lean_obligations(ctx, prop, theorems, allow_axioms=(), allow_bv_decide_in=()
     return all_ok
 
 
+def gen_ops(script, seed, *args, prefixes=None, outfile=None):
+    """op lines from one of the tools/gen_*.py generators (deterministic per seed)"""
+    cmd = [sys.executable, os.path.join(VERIF, "tools", script), str(seed)] + [str(a) for a in args]
+    if outfile:
+        cmd.append(outfile)
+    p = sh(cmd, timeout=600, env={"VERIF_SEED": str(seed)})
+    if p.returncode != 0:
+        raise RuntimeError("%s failed: %s" % (script, p.stderr.decode(errors="replace")[-1500:]))
+    txt = open(outfile).read() if outfile else p.stdout.decode()
+    lines = [l for l in txt.split("\n") if l.strip()]
+    if prefixes:
+        lines = [l for l in lines if l.split()[0] in prefixes]
+    return lines
+
+
+def unit_correspondence(ctx, kvh, lines, what):
+    """run a unit correspondence suite; returns the list of disagreements (also counted in ctx)"""
+    diffs = correspond(kvh, lines)
+    ctx.count("unit_ops_" + what, len(lines))
+    ctx.evaluations += len(lines)
+    kinds = {}
+    for l in lines:
+        k = l.split()[0]
+        kinds[k] = kinds.get(k, 0) + 1
+    ctx.cov.setdefault("unit_op_kinds", {}).update(kinds)
+    return diffs
+
+
+def report_diffs(ctx, diffs, fails, what):
+    if diffs and not fails:
+        d = diffs[0]
+        ctx.violation("model and implementation disagree on %s (%d disagreements); the search found no input violating the property" % (d["op"].split()[0], len(diffs)),
+                      dict(kind="correspondence", broken="unit correspondence of " + what, first=[dict(index=x["index"], op=x["op"][:3000], impl=str(x["impl"])[:1500],
+                                                                                                         model=str(x["model"])[:1500], note=x["note"][-1500:]) for x in diffs[:5]]), no_input=True)
+
+
 TRUSTED_COMMON = [
     "Lean 4.33.0 kernel (axioms per theorem listed in obligations_detail)",
     "translators tools/translate.py (Gen/*.lean regenerated from /repo on this run)",
